@@ -66,6 +66,9 @@ TraceCase ==
           <<"C05.accuracy", ~ok \/ SameQ(e.accuracy, Accuracy(M))>>,
           <<"C05.accuracy_in_narrow_integer_dtypes", ~ok \/
                (SameQ(e.acc_narrow[1], Accuracy(M)) /\ SameQ(e.acc_narrow[2], Accuracy(M)))>>,
+          (* accuracy is invariant under rescaling the weights, down to populations of 1e-9 and up to 4^10 *)
+          <<"C05.accuracy_scale_invariant", ~ok \/ ~("acc_scaled" \in DOMAIN e) \/
+               \A i \in DOMAIN e.acc_scaled : SameQ(e.acc_scaled[i], Accuracy(M))>>,
           <<"C05.shapes", ~ok \/ e.shape_ok>>,
           (* leading shape (2,3): grid [[M, M', M], [M', M', M]], M' = labels and predictions swapped *)
           <<"C05.two_leading_dimensions", ~ok \/ \A n \in DOMAIN e.stacked2 :
